@@ -365,15 +365,17 @@ def objectInit (s : Sig) (c : Call) : Except PyErr SymObject :=
       else if fields.any (fun p => s.varargs == some p.1) then .error .typeError
       else .ok ⟨s, fields, va⟩
 
-/-- class_wrapper.py:191-205 `_call_init`: the call made to the user's `__init__`. -/
+/-- Parameters with their value in `fields`, else their default (the `_sym_attributes` dict has
+the defaults filled in by `Schema.apply`). -/
+def withDefaults (fields : KW) (ps : List Param) : KW :=
+  ps.filterMap fun p => ((kget fields p.name).orElse fun _ => p.dflt).map fun v => (p.name, v)
+
+/-- class_wrapper.py `_call_init` (with fixes/C18-F61.patch: the positional parameters are always
+passed by position): the call made to the user's `__init__`. -/
 def callInitCall (o : SymObject) : Call :=
   let s := o.sig
-  let withDefaults (ps : List Param) : KW :=
-    ps.filterMap fun p => ((kget o.fields p.name).orElse fun _ => p.dflt).map fun v => (p.name, v)
-  let extras := o.fields.filter fun p => !(s.names.contains p.1)
-  match s.varargs with
-  | some _ => ⟨(withDefaults s.pos).map (·.2) ++ o.va.getD [], withDefaults s.kwonly ++ extras⟩
-  | none => ⟨[], withDefaults s.pos ++ withDefaults s.kwonly ++ extras⟩
+  ⟨(withDefaults o.fields s.pos).map (·.2) ++ o.va.getD [],
+   withDefaults o.fields s.kwonly ++ o.fields.filter fun p => !(s.names.contains p.1)⟩
 
 /-- `Cls(*args, **kwargs)` for `Cls = pg.symbolize(UserClass)`: what the user's `__init__` sees. -/
 def classInit (s : Sig) (c : Call) : Except PyErr Assignment :=
